@@ -17,6 +17,8 @@ Line protocol of the C20 driver.
   hist <reg|link> <none|fixed|pattern> <leftoverhex> <mode> <k> <oldhex> <newhex> <new2a> <new2b>
       save 1 cut at byte k, restart, one more change saved without fault
       -> step1=<old|new|..> + the fields of `save` for the final state (verdict old = new2a, new = new2b)
+  killpoints <oldhex> <newhex> <reg|link> <none|fixed|pattern> <leftoverhex>
+      -> the distinct directory views after a kill between two calls of a fault-free save, joined by " | "
   stop <tokens>
       tokens: A (API change, acknowledged)  W (synctest.Wait)  T (sleep one cool-down)  C (cancel)  S (Stop)
       -> disks=<v,v,..> acked=<n> lost=<0|1>   (every store version the file can hold when Stop returns)
@@ -91,6 +93,26 @@ def doHist (kind leftover : String) (lo : Bytes) (mode : String) (k : Nat) (old 
       let r2 := finalRun new2 none none prog 0 (startRun r1.fs)
       s!"step1={step1} " ++ showFS r2 new2a new2b
 
+def showKill (fs : FS) : String :=
+  let tm := tmpContents fs
+  let tms := if tm.isEmpty then "none" else String.intercalate ";" tm
+  let dest := match fs.dest with
+    | none => "none"
+    | some i => match fs.inodes[i]? with | some ino => toHexField ino.cur | none => "dangling"
+  s!"target={hexOpt (afterKill fs)} tmps={tms} link={if fs.isLink then 1 else 0} dest={dest}"
+
+/-- every state a process kill BETWEEN two calls of a fault-free save can leave: before the first statement,
+right after each statement, and the end -/
+def doKillPoints (old new : Bytes) (kind leftover : String) (lo : Bytes) : String :=
+  match saveProg? with
+  | none => "gen-undecodable"
+  | some prog =>
+    let fs0 := mkFS old kind leftover lo
+    let sts := (List.range (prog.length + 1)).map (fun i =>
+      showKill (finalRun new none (some i) prog 0 (startRun fs0)).fs)
+    let all := (showKill fs0 :: sts).foldl (fun acc x => if acc.contains x then acc else acc ++ [x]) []
+    String.intercalate " | " all
+
 def natList (xs : List Nat) : String := String.intercalate "," (xs.map toString)
 
 def insertNat (x : Nat) : List Nat → List Nat
@@ -136,6 +158,10 @@ def stepC20 (u : Unit) (line : String) : Unit × String :=
     match k.toNat?, ofHex? old, ofHex? new, ofHex? lo, ofHex? n2a, ofHex? n2b with
     | some k, some o, some n, some l, some a, some b => (u, doHist kind leftover l mode k o n a b)
     | _, _, _, _, _, _ => (u, "bad-op")
+  | ["killpoints", old, new, kind, leftover, lo] =>
+    match ofHex? old, ofHex? new, ofHex? lo with
+    | some o, some n, some l => (u, doKillPoints o n kind leftover l)
+    | _, _, _ => (u, "bad-op")
   | "stop" :: toks => (u, doStop toks)
   | _ => (u, "bad-op")
 
